@@ -139,11 +139,13 @@ func (uconn *UConn) buildHandshakeState(loadSession bool) error {
 				uconn.removeSNIExtension()
 			}
 			uconn.presetApplied = true
-		} else if uconn.clientHelloBuildStatus == NotBuilt {
-			// The preset was applied by an earlier BuildHandshakeStateWithoutSession.
-			// Applying it again would drop the private keys of the key shares already
-			// placed in the extensions; only pick up a session extension the caller
-			// has provided since.
+		}
+		if uconn.clientHelloBuildStatus == NotBuilt {
+			// The preset was applied by an earlier BuildHandshakeStateWithoutSession,
+			// or by the caller itself (HelloCustom + ApplyPreset). Applying it again
+			// would drop the private keys of the key shares already placed in the
+			// extensions; only pick up a session extension the caller has provided
+			// since (right after applyPresetByID this changes nothing).
 			if err := uconn.sessionController.syncSessionExts(); err != nil {
 				return err
 			}
